@@ -45,6 +45,11 @@ static const vf_name names_trap[] = {
     { (const uint8_t *) LNAME, 128 }, { (const uint8_t *) "\x7f", 1 }, { (const uint8_t *) "\x80", 1 }, { (const uint8_t *) "\xff", 1 }
 };
 #define NTRAP 12
+/* second family for C07: a name that needs the 4-byte length prefix (32768 bytes), its 1-byte prefix and a later name */
+static uint8_t HUGE_NAME[32768];
+static vf_name names_huge[4];       /* "a" < "h" < "hhh...(32768)" < "z" */
+static vf_name QALL[NTRAP + 3];     /* query alphabet: the 12 trap names + the huge name, "h", "z" */
+#define NQALL (NTRAP + 3)
 
 /* ops: 'n' next, 'O' 'A' enter, 'o' 'a' leave, 'r' get_raw, 'w' to_writer,
  * 0x80|variant<<4|q : lookups (variant 0 field_with_length, 1 field (strlen),
@@ -67,7 +72,7 @@ static const char *op_name(op_t op, char *tmp)
         int q = op & 15;
         char hx[300];
         vf_hex(hx, Q[q].p, Q[q].len > 8 ? 8 : Q[q].len);
-        sprintf(tmp, "%s(%s%s)", v[(op >> 4) & 3], hx, Q[q].len > 8 ? "..128bytes" : "");
+        sprintf(tmp, "%s(%s%s)", v[(op >> 4) & 3], hx, Q[q].len > 8 ? (Q[q].len > 128 ? "..32768bytes" : "..128bytes") : "");
         return tmp;
     }
     }
@@ -363,6 +368,9 @@ static bool do_op(mstate *m, op_t op, mismatch *mm, bool counting)
         break;
     }
     }
+    /* freeze the work counters of THIS call (the container-identity probe below runs the parser again) */
+    const uint64_t call_cb = cb_count;
+    const size_t call_maxused = cb_maxused;
     if (counting) {
         vf_count(CT_TRANS, 1);
         vf_count(CT_CB_CALLS, cb_count);
@@ -449,11 +457,19 @@ static bool do_op(mstate *m, op_t op, mismatch *mm, bool counting)
     if (ok && e.ret && e.node >= 0) ok = check_on_node(e.node, mm);
     if (ok) {
         /* C16 on protocol traces: work linear in the bytes moved over */
-        size_t adv = cb_maxused - used0;
-        if (cb_count > 2 * adv + 3) {
-            snprintf(mm->why, sizeof mm->why, "%llu token callbacks for %zu bytes advanced", (unsigned long long) cb_count, adv);
+        size_t adv = call_maxused - used0;
+        if (call_cb > 2 * adv + 3) {
+            snprintf(mm->why, sizeof mm->why, "%llu token callbacks for %zu bytes advanced", (unsigned long long) call_cb, adv);
             snprintf(mm->sigctx, sizeof mm->sigctx, "work");
             ok = false;
+        } else if (op != 'R' && op != 'V' && L.p->error_flags == BINSON_ERROR_NONE && call_maxused > L.p->buffer_used) {
+            size_t back = call_maxused - L.p->buffer_used;
+            size_t allowed = ((op & 0x80) && !r) ? vf_name_token_size_at(&L, L.p->buffer_used) : 0;
+            if (back > allowed) {
+                snprintf(mm->why, sizeof mm->why, "scanned up to offset %zu but left the cursor at %zu: %zu bytes will be processed again", call_maxused, L.p->buffer_used, back);
+                snprintf(mm->sigctx, sizeof mm->sigctx, "rewind");
+                ok = false;
+            }
         }
     }
     (void) before;
@@ -649,25 +665,29 @@ static void on_doc(vf_gen *g, void *u)
     explore_config(OPS, NOPS);
 }
 
-static int N_TOK;
+static int N_TOK, N_TOK_DEEP;
 static void worker(int w, int W, uint64_t start)
 {
     g_w = w; g_W = W; g_start = start; g_docindex = 0;
     vf_fatal_describe = fatal_describe;
     vf_set_init(&MSET, sizeof(mstate));
-    static const int cls_nav[] = { LC_INT8, LC_STR, LC_OBJ, LC_ARR };
+    static const int cls_nav[] = { LC_INT8, LC_STR, LC_STR128, LC_OBJ, LC_ARR };     /* LC_STR128: a value with a 2-byte length prefix to skip over */
+    static const int cls_nav4[] = { LC_INT8, LC_STR, LC_OBJ, LC_ARR };
     static const int cls_c07[] = { LC_INT8, LC_OBJ, LC_ARR };
     static vf_gen g;
-    for (int root = VK_OBJ; root <= VK_ARR; root++) {
-        memset(&g, 0, sizeof g);
-        g.root_kind = root;
-        g.max_tokens = N_TOK;
-        if (P_C07) { g.classes = cls_c07; g.nclasses = 3; g.names = names_trap; g.nnames = NTRAP; g.max_obj_depth = 3; }
-        else { g.classes = cls_nav; g.nclasses = 4; g.names = vf_names_abc; g.nnames = 3; g.max_obj_depth = 6; }
-        g.cb = on_doc;
-        vf_gen_run(&g);
-        /* index space of the array-rooted family continues after the object-rooted one */
-    }
+    /* pass 0: the full leaf alphabet up to N_TOK tokens; pass 1 (C06/C11 thorough): one token deeper without the long string */
+    for (int pass = 0; pass < ((N_TOK_DEEP > N_TOK || P_C07) ? 2 : 1); pass++)
+        for (int root = VK_OBJ; root <= VK_ARR; root++) {
+            memset(&g, 0, sizeof g);
+            g.root_kind = root;
+            g.max_tokens = pass ? N_TOK_DEEP : N_TOK;
+            if (P_C07 && pass) { g.classes = cls_c07; g.nclasses = 3; g.names = names_huge; g.nnames = 4; g.max_obj_depth = 2; g.max_tokens = N_TOK - 1; }
+            else if (P_C07) { g.classes = cls_c07; g.nclasses = 3; g.names = names_trap; g.nnames = NTRAP; g.max_obj_depth = 3; }
+            else if (pass) { g.classes = cls_nav4; g.nclasses = 4; g.names = vf_names_abc; g.nnames = 3; g.max_obj_depth = 6; }
+            else { g.classes = cls_nav; g.nclasses = 5; g.names = vf_names_abc; g.nnames = 3; g.max_obj_depth = 6; }
+            g.cb = on_doc;
+            vf_gen_run(&g);
+        }
 }
 
 static void replay_main(void)
@@ -676,7 +696,7 @@ static void replay_main(void)
     char *root = vf_replay_get(t, "root"), *md = vf_replay_get(t, "max_depth"), *hex = vf_replay_get(t, "doc_hex"), *ops = vf_replay_get(t, "ops");
     if (!root || !md || !hex || !ops) vf_die("replay file lacks root/max_depth/doc_hex/ops");
     static vf_doc R;
-    static uint8_t bytes[1 << 16];
+    static uint8_t bytes[1 << 18];
     long n = vf_unhex(bytes, sizeof bytes, hex);
     if (n < 0) vf_die("bad doc_hex");
     int kind = !strcmp(root, "object") ? VK_OBJ : VK_ARR;
@@ -711,7 +731,12 @@ int main(int argc, char **argv)
     vf_main_init(argc, argv, "nav", ctr_names);
     P_C06 = !strcmp(vf_g.prop, "C06"); P_C07 = !strcmp(vf_g.prop, "C07"); P_C11 = !strcmp(vf_g.prop, "C11");
     if (!P_C06 && !P_C07 && !P_C11) vf_die("nav decides C06, C07, C11");
-    Q = names_trap; NQ = NTRAP;
+    memset(HUGE_NAME, 'h', sizeof HUGE_NAME);
+    names_huge[0] = (vf_name) { (const uint8_t *) "a", 1 }; names_huge[1] = (vf_name) { (const uint8_t *) "h", 1 };
+    names_huge[2] = (vf_name) { HUGE_NAME, sizeof HUGE_NAME }; names_huge[3] = (vf_name) { (const uint8_t *) "z", 1 };
+    for (int i = 0; i < NTRAP; i++) QALL[i] = names_trap[i];
+    QALL[NTRAP] = names_huge[2]; QALL[NTRAP + 1] = names_huge[1]; QALL[NTRAP + 2] = names_huge[3];
+    Q = QALL; NQ = NQALL;
     NOPS = 0;
     static const char base6[] = "nOAoar";
     for (int i = 0; i < 6; i++) OPS[NOPS++] = (op_t) base6[i];
@@ -719,15 +744,16 @@ int main(int argc, char **argv)
     if (P_C06) { OPS[NOPS++] = 'R'; OPS[NOPS++] = 'V'; }
     if (P_C07) for (int v = 0; v < 4; v++) for (int q = 0; q < NQ; q++) OPS[NOPS++] = (op_t) (0x80 | (v << 4) | q);
     const char *e = getenv("VERIF_N");
-    if (P_C07) N_TOK = vf_g.thorough ? 4 : 3; else N_TOK = vf_g.thorough ? 7 : 5;
+    if (P_C07) N_TOK = vf_g.thorough ? 4 : 3; else N_TOK = vf_g.thorough ? 6 : 5;
     if (e) N_TOK = atoi(e);
+    N_TOK_DEEP = (!P_C07 && vf_g.thorough && !e) ? 7 : 0;
     if (vf_g.replay) { vf_set_init(&MSET, sizeof(mstate)); replay_main(); }
     int deaths = vf_run_workers(worker);
     static char bound[400], rule[600];
     snprintf(bound, sizeof bound,
-             "all valid object- and array-rooted documents with <= %d value tokens over leaves {%s} and containers {object,array}, names %s; "
+             "all valid object- and array-rooted documents with <= %d value tokens over leaves {%s} and containers {object,array}%s, names %s; "
              "max_depth = needed and needed+1; per document: fixpoint over ALL protocol-following call sequences (any length) of %d operations",
-             N_TOK, P_C07 ? "int" : "int,string", P_C07 ? "12 order-trap names (empty, NUL, prefixes, a pair differing only after an embedded NUL, a 128-byte name, 0x7f/0x80/0xff)" : "a<b<c", NOPS);
+             N_TOK, P_C07 ? "int" : "int,string,128-byte string", N_TOK_DEEP ? " and with <= 7 value tokens over {int,string,object,array}" : "", P_C07 ? "12 order-trap names (empty, NUL, prefixes, a pair differing only after an embedded NUL, a 128-byte name, 0x7f/0x80/0xff); plus all documents with one token less over names {a, h, a 32768-byte name (4-byte length prefix), z}; 15 query names" : "a<b<c", NOPS);
     snprintf(rule, sizeof rule,
              "grammar-directed exhaustive enumeration of documents; breadth-first search over (byte image of parser+state[], reference cursor state), "
              "deduplicated by exact comparison; each transition is one real API call checked against the reference cursor");
